@@ -30,7 +30,9 @@ RULE = ("random histories (length <= 15, thorough <= 25) per object: FunctionSig
         "entry and the next read must equal a fresh object's; a uniform tracer with a non-uniform ice model raises "
         "TypeError on every read), several live handles (a sum a+b / b+a of function-backed or thermal-noise signals, sums of sums, copy() and "
         "with_times() of the sum, a + sampled): everything is read, one handle is mutated by filter_frequencies / "
-        "set_buffers / shift / *=, and all other handles must equal their earlier values and never-mutated twins, "
+        "set_buffers / shift / *=, and all other handles must equal their earlier values and never-mutated twins; the second "
+        "operand may be the signal's own delayed copy (copy, shift by whole or fractional samples, with_times back) and the "
+        "sum must be pointwise the operands' values, "
         "*= and /= by 2, -0.5, 3, 0.7 checked against the values read before the scaling, set_buffers calls that are "
         "rejected after the leading part was written, "
         "in-place edit of `times` handed back as the same object (times += d; t = times; t += d; times = t); "
@@ -532,7 +534,20 @@ def sum_handles(ctx, tr, kind, filters, unit):
 
     # the second operand: a plain function signal, another object of the same kind, or a scaled copy
     q = rng.random()
-    if q < 0.5 or kind != "FunctionSignal":
+    if q < 0.3:
+        # the signal's own DELAYED copy (whole-sample and sub-sample delays): same function object, buffers and filters,
+        # only the time offset differs
+        d = rng.choice([1.0, 3.0, 7.0, 0.3, 0.25, -0.5]) * unit
+        c = a.copy()
+        tr.tok("call:copy")
+        tc0 = track(c, "call:copy@new_signal")
+        c.shift(d)
+        tc0.tok("call:shift")
+        b = c.with_times(np.array(a.times))
+        tc0.tok("call:with_times")
+        tb = track(b, "call:with_times@new_signal")
+        ctx.run.count("sum_with_own_delayed_copy")
+    elif q < 0.6 or kind != "FunctionSignal":
         f = rng.choice(E["funcs"]) if kind == "FunctionSignal" else (lambda t: 0 * np.asarray(t) + 1e-3)
         b = S.FunctionSignal(a.times, f, a.value_type)
         tb = track(b, "call:__init__")
@@ -589,6 +604,12 @@ def sum_handles(ctx, tr, kind, filters, unit):
     before = [rd(t) for _, t in handles]
     mixed_before = np.array(mixed.values)
     twins = [twin_signal(t.obj) for _, t in handles]
+    # the sum is pointwise the sum of what its operands report (each evaluates its own function at t - t0)
+    sc = max(1e-300, float(np.max(np.abs(before[0]) + np.abs(before[1]))))
+    if before[2].shape != before[0].shape or not np.all(np.abs(before[2] - (before[0] + before[1])) <= 1e-9 * sc + 1e-13):
+        ctx.note("the sum of two function-backed signals is not the pointwise sum of its operands' values "
+                 "(max |diff| %.3g, scale %.3g)" % (float(np.max(np.abs(before[2] - (before[0] + before[1]))))
+                                                    if before[2].shape == before[0].shape else -1, sc))
     # ---- mutate one handle after the other; all OTHER handles must be unaffected
     n_mut = rng.randint(1, 3)
     for _ in range(n_mut):
